@@ -351,7 +351,9 @@ pub fn scenarios(thorough: bool) -> Vec<BookScenario> {
 	let dropp = vec![DropPending, ReturnNone];
 	let watch = vec![Accept, IsClosed, AwaitClosed, IsClosed, ReturnNone];
 	let clone = vec![Accept, CloneSink, DropSink(0), IsClosed, SendVia(1), IsClosed];
-	let scripts = vec![hold.clone(), ret.clone(), rej.clone(), dropp.clone(), watch.clone(), clone.clone()];
+	// the handler lets go of its only sink and goes on doing something else: the subscription is over, its slot is free
+	let letgo = vec![Accept, DropSink(0), IsClosed, IsClosed, ReturnNone];
+	let scripts = vec![hold.clone(), ret.clone(), rej.clone(), dropp.clone(), watch.clone(), clone.clone(), letgo.clone()];
 	// unsubscribe variants on one connection
 	for (mi, mask) in [mask_harness_only as fn(&str) -> bool, mask_sub_points].into_iter().enumerate() {
 		for h in 0..scripts.len() {
@@ -429,7 +431,7 @@ pub fn scenarios(thorough: bool) -> Vec<BookScenario> {
 pub fn check(rep: &Reporter) {
 	let thorough = rep.tier.thorough();
 	rep.set_rule(
-		"WebSocket connections (1–2) with max_subscriptions_per_connection ∈ {0,1,2}; peer scripts over {subscribe ×(cap+1…), unsubscribe own live / already unsubscribed / other connection's / never issued / wrong JSON type, close frame, abrupt drop, subscribe again after k endings} × handler scripts {accept and hold, accept and return, reject, drop pending, accept+watch closed(), accept+clone+drop one clone}; all peer actions and handler steps (and, per scenario, the cfg points inside accept/send) are scheduling points; whole tree or ≤K deviations. Monitor with the interval rule: every unsubscribe answer must equal the reference 'active' value at some position between request and answer; refusals -32006 must be justified by a full connection at some position of the call; slot count never exceeds the cap; is_closed() of a held sink equals ¬active; a subscribe call answered with an error (incl. -32008 when max_response_body_size is below the accept() answer) has no live sink. Plus: an id provider that reuses an id after its holder was unsubscribed (the new subscription stays active whatever the old handler does with its sink), the low-level ws::connect assembly, string subscription ids.",
+		"WebSocket connections (1–2) with max_subscriptions_per_connection ∈ {0,1,2}; peer scripts over {subscribe ×(cap+1…), unsubscribe own live / already unsubscribed / other connection's / never issued / wrong JSON type, close frame, abrupt drop, subscribe again after k endings} × handler scripts {accept and hold, accept and return, reject, drop pending, accept+watch closed(), accept+clone+drop one clone, accept+drop the sink+keep running}; all peer actions and handler steps (and, per scenario, the cfg points inside accept/send) are scheduling points; whole tree or ≤K deviations. Monitor with the interval rule: every unsubscribe answer must equal the reference 'active' value at some position between request and answer; refusals -32006 must be justified by a full connection at some position of the call; slot count never exceeds the cap; is_closed() of a held sink equals ¬active; a subscribe call answered with an error (incl. -32008 when max_response_body_size is below the accept() answer) has no live sink. Plus: an id provider that reuses an id after its holder was unsubscribed (the new subscription stays active whatever the old handler does with its sink), the low-level ws::connect assembly, string subscription ids.",
 	);
 	rep.assume("active ⇔ accepted ∧ not unsubscribed ∧ connection open (on_session_closed not yet resolved) ∧ the handler holds at least one sink; slots = pending + subscriptions whose handlers still hold a sink");
 	for s in scenarios(thorough) {
